@@ -49,7 +49,7 @@ func (rn *runner) runCLIPhase(scratch string, all []worldItem) {
 			res := bufx.RunCLI(rn.ctx, nil, "", args...)
 			r.Eval(1)
 			cnt.add("cli_builds", 1)
-			mkCase := func() any { return Case{Phase: "cli", Spec: it.spec, Selection: &sel, Files: files} }
+			mkCase := func() any { return Case{Phase: "cli", Spec: it.spec, Selection: &sel, Files: files, World: infoOf(w)} }
 			targets := refTargets(w, sel)
 			if res.ExitCode != 0 {
 				switch {
